@@ -216,6 +216,9 @@ def run(rep, tier, root=None):
                               "star-imports bind %s.%s to more than one definition; the last one wins silently" % (pk, name))
     if not collisions:
         rep.ok("R6.shadowing", "package namespaces", "no public name is bound to two different repo definitions")
+    from ..common import purity_obligations
+    purity_obligations(rep, ix, [f for f in pub], "R7.pure",
+                       "a transform applied twice to the same array, or after another transform, would not see the same data")
     rep.floor("C09 wrappers analysed", len(W), 8)
 
 
